@@ -68,9 +68,31 @@ func (w *World) monitorInbound() {
 			w.Violate("C06", "delivery-missing", "%d PUBLISH packets sent, only %d returned, no error reported", len(sent), len(got))
 		}
 	}
+	// a deadline expiry that saw progress is survived: an error return right
+	// after such an expiry (first connection, nothing else wrong) is not allowed
+	if len(w.conns) > 0 {
+		lastTimeoutProgress, failed := -1, false
+		for _, e := range w.log {
+			if e.C == 1 && e.K == "read" && strings.Contains(e.R, "timeout") {
+				lastTimeoutProgress = e.N
+			}
+			if e.K == "store" && e.R != "" {
+				failed = true
+			}
+			if e.K == "dial" && e.C > 1 {
+				break
+			}
+			if e.K == "ret" && e.S == "rs" && strings.Contains(e.R, "timeout") && !failed {
+				if lastTimeoutProgress > 0 && !strings.Contains(e.R, "CONNECT not confirmed") {
+					w.Violate("C06", "progress-misjudged", "the deadline expired after %d bytes had arrived since it was set, yet ReadSlices gave up: %s", lastTimeoutProgress, e.R)
+				}
+				break
+			}
+		}
+	}
 	if !lost {
 		for _, d := range w.deliveries {
-			if d.Err != nil && !d.Big && !strings.Contains(d.Class, "ErrClosed") {
+			if d.Err != nil && !d.Big && !strings.Contains(d.Class, "ErrClosed") && !strings.Contains(d.Class, "StoreErr") {
 				w.Violate("C06", "error-on-wellformed-stream", "ReadSlices returned %v on a well-formed stream whose pauses all saw progress", d.Err)
 			}
 		}
@@ -291,6 +313,24 @@ func init() {
 			}
 		}
 	}
+	// control packets between the messages (tolerated late answers and a stray
+	// pong), and a failing marker Save: the stream stays aligned
+	register("inboundctl", func() *Scenario {
+		s := mkInbound(32, true)()
+		s.Inbound = []InMsg{
+			{QoS: 0, Topic: "i/0", Body: pay("zero", 5)},
+			{Raw: encAck(tUNSUBACK, 0x4001)},
+			{QoS: 1, ID: 1, Topic: "i/1", Body: pay("one", 9)},
+			{Raw: encSuback(0x6001, []byte{1, 0x80})},
+			{QoS: 2, ID: 2, Topic: "i/2", Body: pay("two", 4)},
+			{Raw: []byte{tPINGRESP << 4, 0}},
+			{Raw: encAck(tUNSUBACK, 0x4002)},
+			{QoS: 0, Topic: "i/3", Body: pay("three", 40)},
+			{QoS: 0, Topic: "i/4", Body: pay("four", 2)},
+		}
+		s.Faults.Store = map[string]bool{"save": true}
+		return s
+	})
 	register("inbound32", mkInbound(32, true))
 	register("inbound32skip", mkInbound(32, false))
 	register("inbound64", mkInbound(64, true))
